@@ -480,6 +480,15 @@ func (g *dgen) method(svc *spec.Service, idx int) *spec.Method {
 		verb = []string{"DELETE", "POST"}[t.Draw("verb2", 2)]
 	}
 	m.Routes = []*spec.Route{{Verb: verb, Path: path}}
+	if t.Draw("second-route", 4) == 0 {
+		// the same method reachable under a second path (and possibly verb)
+		v2 := verb
+		if hasBody && t.Draw("second-route-verb", 2) == 0 {
+			v2 = map[string]string{"POST": "PUT", "PUT": "PATCH", "PATCH": "POST"}[verb]
+		}
+		m.Routes = append(m.Routes, &spec.Route{Verb: v2, Path: "/r2" + path})
+		g.feat("routes:two")
+	}
 	// ---- result
 	status := 200
 	if g.chance("viewed-result", "views", 1, 3, 4) {
